@@ -493,7 +493,13 @@ func (p *parser) insertOperatorOverload(decl *ast.FuncDecl) {
 		}
 	}
 
-	// keep the slice sorted in descending order, so that references are prioritized
+	p.Operators[decl.Operator] = insertSortedOverload(overloads, decl)
+}
+
+// returns a copy of overloads with decl inserted
+// the slice is kept sorted, so that references are prioritized and generic overloads come last
+// (a copy, because the contexts captured by generic functions hold on to the old slice)
+func insertSortedOverload(overloads []*ast.FuncDecl, decl *ast.FuncDecl) []*ast.FuncDecl {
 	i, _ := slices.BinarySearchFunc(overloads, decl, func(a, t *ast.FuncDecl) int {
 		countRefAndGenericArgs := func(params []ast.ParameterInfo) (refs, gen int) {
 			for i := range params {
@@ -518,6 +524,5 @@ func (p *parser) insertOperatorOverload(decl *ast.FuncDecl) {
 		return refsT - refsA // the more refs the "smaller"
 	})
 
-	overloads = slices.Insert(overloads, i, decl)
-	p.Operators[decl.Operator] = overloads
+	return slices.Insert(slices.Clone(overloads), i, decl)
 }
